@@ -650,7 +650,7 @@ def run_c03(R, tier, rng):
                     a = RA(X, dt)
                     ix = tuple(np.array(x) if isinstance(x, list) else x for x in idx) if isinstance(idx, tuple) else (np.array(idx) if isinstance(idx, list) else idx)
                     if isinstance(ix, np.ndarray) and ix.size == 0: ix = np.array([], dtype=int)
-                    val = v if vk == "scalar" else np.array(v, dtype=dt) if vk in ("column", "flat") else RaggedArray(v, dtype=dt)
+                    val = v if vk == "scalar" else np.array(v, dtype=dt) if vk in ("column", "flat") else (RaggedArray(v, dtype=dt) if (si + k) % 2 else view_of(v, dt, si + k))   # the value operand may itself be a lazy view
                     a[ix] = val
                     return {"rows": kl(a.tolist()), "dtype": str(a.dtype), "lens": np.asarray(a.lengths).tolist()}
                 def spec():
